@@ -362,10 +362,10 @@ def main(tier=None, replay=None):
     for ci, c in enumerate(clouds):
         small = len(c["pu"]) + len(c["ps"]) <= 4
         for ri, r2 in enumerate(radii):
-            # budget: quick 2 configurations per (clouds, radius); thorough 4 for small clouds, and for the
+            # budget: quick 1-2 configurations per (clouds, radius); thorough 4 for small clouds, and for the
             # larger ones 1 configuration on 2 of the 5 radii (rotating, so every radius/configuration is used)
             if ck.quick:
-                sel = [combos[(ci + 5 * ri) % len(combos)], combos[(3 * ci + ri + 7) % len(combos)]]
+                sel = [combos[(ci + 5 * ri) % len(combos)]] + ([combos[(3 * ci + ri + 7) % len(combos)]] if ri < 2 else [])
             elif small:
                 sel = [combos[(ci + 5 * ri + 3 * q) % len(combos)] for q in range(4)]
             elif (ci + ri) % 5 < 2:
